@@ -195,7 +195,9 @@ var c06Shapes = []string{"none", "where", "distinct", "order_by", "group_by", "j
 	"expr_over_limit",
 	// max_diff_watermark -> GROUP BY t TRIGGER ON WATERMARK: the failure reaches the group-by through the
 	// event-time buffer, several event times per release (json only: the time column is an RFC 3339 string)
-	"watermark_group_by"}
+	"watermark_group_by",
+	// a failing expression above a plain GROUP BY subquery: the failure comes back into the group-by's emission loop
+	"expr_over_group_by"}
 
 // checkC06: one fault per run, injected into the data or the disk under a real
 // file datasource, below a generated query shape. A query that has to consume
@@ -360,6 +362,12 @@ func checkC06(r *Run) {
 				outerArg = only("g.mx")
 			}
 			return with + "SELECT g.t, COUNT(" + outerArg + ") AS c2 FROM (SELECT t, MAX(id) AS mx FROM w GROUP BY t TRIGGER ON WATERMARK) g GROUP BY g.t TRIGGER ON WATERMARK"
+		case "expr_over_group_by":
+			sel := "g.c"
+			if withPanic && target == main {
+				sel = "(g.c < 0 OR panic('boom') = 'q') AS p" // COUNT(*) is never negative: fails for the first group emitted
+			}
+			return fmt.Sprintf("SELECT g.gg, %s FROM (SELECT %s AS gg, COUNT(*) AS c FROM %s GROUP BY %s) g", sel, main.g, main.ref(), main.g)
 		case "count_star":
 			// uses no column of the table at all: the optimiser may prune every field of the datasource
 			return fmt.Sprintf("SELECT COUNT(*) AS c FROM %s%s", main.ref(), where(mWhere))
